@@ -361,6 +361,23 @@ theorem batch_whole_script_preserves_scalar_semantics (p : Program) (hf : Src.fr
     subst ho
     exact pre _ _ snd
 
+/-- **What the driver computes on the whole script is the program's result.**  `SemB.runLines fuel ls = lrun ls fuel ls ⟨empty⟩`
+    is the function the check runs on every script of the fragment and compares with lib/cmdsim.py: whenever the source
+    semantics ends normally or with a panic and `lrun` finishes on the whole script from the empty store, it reports the exit
+    code of the program (0 for a normal end) and the same printed lines. -/
+theorem batch_whole_script_outcome_unique (p : Program) (hf : Src.fragStmts p = true) (hn : simpleLoopsStmts p = true)
+    (ls : List BLine) (hc : compile p = .ok ls) :
+    ∀ f1 f2 o1 out1 o2 c2, Src32.runProgram f1 p = some (o1, out1) → lrun ls f2 ls ⟨fun _ => "", []⟩ = some (o2, c2) →
+      (o1 = .normal → o2 = .exit 0 ∧ out1 = c2.out) ∧ (∀ k, o1 = .exit k → o2 = .exit k ∧ out1 = c2.out) := by
+  intro f1 f2 o1 out1 o2 c2 hs hx
+  obtain ⟨c', eo, hnorm, hexit⟩ := batch_whole_script_preserves_scalar_semantics p hf hn ls hc f1 o1 out1 hs
+  have hl := lrun_sound ls f2 _ _ o2 c2 hx
+  refine ⟨fun ho => ?_, fun k ho => ?_⟩
+  · obtain ⟨h1, h2⟩ := LRun.det (hnorm ho) hl
+    exact ⟨h1.symm, by rw [← eo, h2]⟩
+  · obtain ⟨h1, h2⟩ := LRun.det (hexit k ho) hl
+    exact ⟨h1.symm, by rw [← eo, h2]⟩
+
 /-- **At the line level the outcome is unique, and it is the one the executable line interpreter computes.**  `LRun` is
     deterministic (`LRun.det`) and the interpreter `lrun` - run on every script of the fragment in every check, next to the
     program-counter machine, the tree interpreter and lib/cmdsim.py - is sound for it (`lrun_sound`): whenever the source
